@@ -3,7 +3,7 @@ from .. import gen, core
 from . import common
 
 SPEC_THEOREM = 'Props/C07: every tree operation preserves well-formedness (invariant by induction over operation lists); canonical = enc of a wf value; byte chains (run_b over the *_w walkers) = tree chains, every register canonical'
-TRUSTED = ['Coq 8.16.1 kernel', 'translator', 'extraction + OCaml driver', 'Rust harness', 'models TreeOps.v / SetOps.v / PathSem.v / Dispatch.v',
+TRUSTED = ['Coq 8.16.1 kernel', 'translator', 'extraction + OCaml driver', 'Rust harness', 'offset-faithful walker models (Iter.v, Builder.v, *Walk*.v) tied to the Rust functions by correspondence on valid and corrupt buffers; tree-level specifications TreeOps.v / SetOps.v / PathSem.v / Contain.v / CmpKey.v / Render.v / Serde.v; ChainWalk.v (byte-register chains)',
            'independent strict Python decoder (exact nested lengths, sorted unique keys, nothing trailing, re-encode identical)']
 ASSUMPTIONS = ['starting documents are canonical encodings of well-formed values; sizes stay below 2^28 bytes / 2^24 elements']
 RULE = 'random operation sequences (length <= 12 quick / 40 thorough) over a register file of documents; arguments are chosen from the current documents (real keys, real indices, sub-paths); at every step the implementation output is compared with the model and decoded by an independent strict decoder; non-trivial = a step that changed the document'
